@@ -67,6 +67,9 @@ def unspentOf (L : Ledger) (t : Nat) : List Nat := (L.utxos.filter (·.txid == t
 /-- `GetUTXO`: the unspent outputs of an address; zero-value outputs are not listed -/
 def utxoOf (L : Ledger) (a : Nat) : List UEntry := L.utxos.filter fun e => e.addr == a && e.value != 0
 
+/-- `Ledger.GetAmount`: sum of the listed outputs of an address -/
+def balanceOf (L : Ledger) (a : Nat) : Int := ((utxoOf L a).map (·.value)).foldl (· + ·) 0
+
 /-- `GetTransaction`: height of a transaction on the chain -/
 def txHeight (L : Ledger) (t : Nat) : Option Nat := (L.txs.find? (·.1 == t)).map (·.2)
 
@@ -182,6 +185,8 @@ structure NState where
   lih : Nat := 0
   dpos : Bool := false
   revertStart : Nat := 1000000
+  /-- `BlockNode.WorkSum` of every block in the index (id ↦ cumulative work above genesis) -/
+  works : List (Nat × Int) := []
 
 def NState.tip (s : NState) : Block := match s.active with | (b, _) :: _ => b | [] => s.genesis
 def NState.ledger (s : NState) : Ledger := match s.active with | (_, L) :: _ => L | [] => s.gledger
@@ -193,17 +198,17 @@ def NState.inMain (s : NState) (id : Nat) : Bool := s.genesis.id == id || s.acti
 /-- `CalcWork(header.Bits)` -/
 def blockWork (b : Block) : Int := if b.bits = 0 then 1 else ElaVerif.Compact.calcWork b.bits
 
-/-- `BlockNode.WorkSum`: work of the block plus the work sum of its parent (genesis counts 0; fuel =
-    number of known blocks) -/
-def workSum (s : NState) : Nat → Block → Int
-  | 0, _ => 0
-  | fuel + 1, b =>
-    if b.id == s.genesis.id then 0
-    else blockWork b + (match s.find b.prev with
-      | some p => workSum s fuel p
-      | none => 0)
+/-- `BlockNode.WorkSum` as recorded when the node was created (genesis and unknown ids: 0) -/
+def workOf (s : NState) (id : Nat) : Int :=
+  match s.works.find? (·.1 == id) with
+  | some p => p.2
+  | none => 0
 
-def chainWork (s : NState) (b : Block) : Int := workSum s (s.known.length + 2) b
+def chainWork (s : NState) (b : Block) : Int := workOf s b.id
+
+/-- `maybeAcceptBlock`: the new node enters the index with `WorkSum = parent.WorkSum + CalcWork(bits)` -/
+def addKnown (s : NState) (b : Block) : NState :=
+  { s with known := b :: s.known, works := (b.id, workOf s b.prev + blockWork b) :: s.works }
 
 /-- `State.IsIrreversible` (IrreversibleHeight = 6) -/
 def isIrreversible (s : NState) (cur detach : Nat) : Bool :=
@@ -273,7 +278,7 @@ def sideOrReorg (s : NState) (b : Block) : NState × Outcome :=
 /-- `connectBestChain`, block extending the tip -/
 def extendTip (s : NState) (b : Block) : NState × Outcome :=
   match connectTip s b with
-  | some s' => (cleanPool { s' with known := b :: s'.known }, .main)
+  | some s' => (cleanPool (addKnown s' b), .main)
   | none => (s, .err)
 
 /-- `maybeAcceptBlock` → `connectBestChain` for a block whose parent is known -/
@@ -283,7 +288,7 @@ def acceptBlock (s : NState) (b : Block) : NState × Outcome :=
   | some parent =>
     if b.height ≠ parent.height + 1 then (s, .err)
     else if parent.id == s.tip.id then extendTip s b
-    else sideOrReorg { s with known := b :: s.known } b
+    else sideOrReorg (addKnown s b) b
 
 /-- one waiting orphan through `maybeAcceptBlock`; it leaves the orphan pool only when that succeeds -/
 def orphanStep (acc : NState × Bool × List Nat) (o : Block) : NState × Bool × List Nat :=
@@ -320,6 +325,12 @@ def processBlock (s : NState) (b : Block) : NState × Reply :=
 /-- `TxPool.AppendToTxPool` -/
 def submit (s : NState) (tx : Tx) : NState × Bool :=
   ({ s with pool := (poolAdd s.P s.ledger s.tip.height s.pool tx).1 }, (poolAdd s.P s.ledger s.tip.height s.pool tx).2)
+
+/-- a node restart: the active chain and its indexes come back from the database; the side-chain block
+    cache, the orphan pool and the transaction pool are memory only -/
+def restart (s : NState) : NState :=
+  { s with known := s.active.map (·.1), orphans := [], pool := [],
+           works := s.works.filter fun w => s.active.any (·.1.id == w.1) }
 
 def initState (P : Params) (g : Block) : NState :=
   { P := P, genesis := g, known := [], orphans := [], active := [], gledger := applyBlock {} g, pool := [] }
